@@ -89,6 +89,99 @@ __CPROVER_decreases(states__size - i)
                    dict(name="terminal_dropped", where="body:cost", rx=r"cost = combineCosts\(cost, terminalCost\(states__size - 1\)\);", repl="")]),
 ]
 
+# ---------------------------------------------------------------- planner incumbent / registration blocks
+AIT = "src/ompl/geometric/planners/informedtrees/src/AITstar.cpp"
+EIT = "src/ompl/geometric/planners/informedtrees/src/EITstar.cpp"
+PRM = "src/ompl/geometric/planners/prm/src/PRM.cpp"
+INC_RULES = [
+    (r"for \(const auto &goal : graph_\.getGoalVertices\(\)\)", "for (unsigned goal = 0; goal < NGOALS; ++goal)", 0),
+    (r"goal->getCostToComeFromStart\(\)", "COSTOF(goal)", 0), (r"goal->getCurrentCostToCome\(\)", "COSTOF(goal)", 0),
+    (r"objective_->isCostBetterThan\(", "better(", 0), (r"\bisBetter\(", "better(", 0), (r"objective_->isFinite\(", "isFiniteC(", 0), (r"objective_->isSatisfied\(", "isSatisfiedC(", 0),
+    (r"objective_->betterCost\(([^,]+), ([^;]+)\);", r"(better(\1, \2) ? (\1) : (\2));", 0),
+    (r"(?:pdef_|problem_)->hasExactSolution\(\)", "hasExact()", 0),
+    (r"ompl::base::PlannerSolution solution\((?:getPathToVertex|getPathToState)\(goal\)\);", "Sol solution; solution.path = (int)goal; solution.has_opt = 0; solution.cost = 0.0; solution.optimized = 0;", 0),
+    (r"solution\.setPlannerName\(name_\);", "", 0),
+    (r"solution\.setOptimized\(objective_, ([^,]+), ([^;]+)\);", r"solution.has_opt = 1; solution.cost = (\1); solution.optimized = (\2);", 0),
+    (r"(?:pdef_|problem_)->addSolutionPath\(solution\);", "addSolutionPath(&solution);", 0),
+    (r"if \(static_cast<bool>\(pdef_->getIntermediateSolutionCallback\(\)\)\)\s*\{[^{}]*getIntermediateSolutionCallback\(\)\(this, const_path, (\w+)\);\s*\}", r"if (HAS_CB) callback(\1);", 0),
+    (r"informAboutNewSolution\(\);", ";", 0),
+]
+INC_SOURCES = [
+    dict(name="aitstar", file=AIT, sig=r"void AITstar::updateExactSolution\(\)", rules=INC_RULES, loops={1: """
+__CPROVER_assigns(goal, solutionCost_, HAS, n_reg, last_reg_cost, last_reg_path)
+__CPROVER_loop_invariant(goal <= NGOALS && solutionCost_ == solutionCost_ && n_reg >= 0 && n_reg <= (int)goal)
+__CPROVER_loop_invariant(__CPROVER_loop_entry(HAS) ==> (HAS && solutionCost_ <= __CPROVER_loop_entry(solutionCost_) && (G < goal ==> solutionCost_ <= COST[G])))
+__CPROVER_loop_invariant(n_reg > 0 ? (solutionCost_ == last_reg_cost && HAS) : (solutionCost_ == __CPROVER_loop_entry(solutionCost_) && HAS == __CPROVER_loop_entry(HAS)))
+__CPROVER_decreases(NGOALS - goal)
+"""}),
+    dict(name="eitstar", file=EIT, begin=r"void EITstar::updateExactSolution\(const std::shared_ptr<eitstar::State> &goal\)\s*\{", end=r"if \(!std::isfinite\(suboptimalityFactor_\)\)",
+         wrap_braces=False, rules=[(r"void EITstar::updateExactSolution\(const std::shared_ptr<eitstar::State> &goal\)\s*\{", "{", 0), (r"$", " } }", 0)] + INC_RULES, loops={}),
+]
+INC_STUBS = ["better", "isFiniteC", "isSatisfiedC", "COSTOF", "hasExact", "addSolutionPath", "callback"]
+UNITS.append(dict(name="c04_aitstar_updateExactSolution", template="C04/incumbent.c", entry="h_aitstar", sources=INC_SOURCES, enforce=["aitstar_updateExactSolution"], replace=INC_STUBS, flags=FLAGS,
+                  level="proof", bound="<= 64 goal vertices", functions=["ompl::geometric::AITstar::updateExactSolution"], backend="cadical", timeout=900, expect_loops=1, confirm=dict(unwind=5, defines={"MAXG": 3}),
+                  canaries=[dict(name="incumbent_safeguard", where="body:aitstar", rx=r"solutionCost_ = COSTOF\(goal\);", repl="solutionCost_ = (better(solutionCost_, COSTOF(goal)) ? solutionCost_ : COSTOF(goal));"),
+                            dict(name="flag_from_old_cost", where="body:aitstar", rx=r"isSatisfiedC\(solutionCost_\)", repl="isSatisfiedC(INFC)")]))
+UNITS.append(dict(name="c04_eitstar_updateExactSolution", template="C04/incumbent.c", entry="h_eitstar", sources=INC_SOURCES, enforce=["eitstar_updateExactSolution"], replace=INC_STUBS, flags=FLAGS,
+                  level="proof", functions=["ompl::geometric::EITstar::updateExactSolution (registration block)"], backend="cadical", timeout=900, expect_loops=0,
+                  canaries=[dict(name="registers_old_cost", where="body:eitstar", rx=r"solutionCost_ = COSTOF\(goal\);", repl="")]))
+PRM_RULES = [
+    (r"base::Goal \*g = pdef_->getGoal\(\)\.get\(\);", "", 0), (r"base::Cost sol_cost\(opt_->infiniteCost\(\)\);", "double sol_cost = infiniteCost();", 0),
+    (r"foreach \(Vertex start, starts\)", "for (unsigned start = 0; start < NS_; ++start)", 0), (r"foreach \(Vertex goal, goals\)", "for (unsigned goal = 0; goal < NG_; ++goal)", 0),
+    (r"graphMutex_\.(?:un)?lock\(\);", "", 0), (r"g->isStartGoalPairValid\(stateProperty_\[goal\], stateProperty_\[start\]\)", "isStartGoalPairValid(goal, start)", 0),
+    (r"base::PathPtr p = constructSolution\(start, goal\);", "int p = constructSolution(start, goal);", 0), (r"base::Cost pathCost = p->cost\(opt_\);", "double pathCost_ = pathCost(p);", 0),
+    (r"\bpathCost\b(?!\()", "pathCost_", 0), (r"double pathCost__ = ", "double pathCost_ = ", 0),
+    (r"opt_->isCostBetterThan\(", "better(", 0), (r"opt_->isSatisfied\(", "isSatisfiedC(", 0), (r"\bsolution = p;", "*solution = p;", 0),
+]
+UNITS.append(dict(name="c04_prm_maybeConstructSolution", template="C04/prm.c", entry="h_prm", enforce=["prm_maybeConstructSolution"], flags=FLAGS, level="proof", bound="<= 4 start and <= 4 goal vertices",
+                  replace=["better", "isSatisfiedC", "infiniteCost", "sameComponent", "isStartGoalPairValid", "constructSolution", "pathCost"],
+                  functions=["ompl::geometric::PRM::maybeConstructSolution"], backend="cadical", timeout=900, expect_loops=2, confirm=dict(unwind=4, defines={"MAXV": 2}), defines={"MAXV": 4},
+                  sources=[dict(name="prm", file=PRM, sig=r"bool ompl::geometric::PRM::maybeConstructSolution\(const std::vector<Vertex> &starts, const std::vector<Vertex> &goals,\s*base::PathPtr &solution\)",
+                                rules=PRM_RULES, loops={1: """
+__CPROVER_assigns(start, sol_cost, SOL, bestCost_)
+__CPROVER_loop_invariant(start <= NS_ && sol_cost == sol_cost && bestCost_ == bestCost_ && bestCost_ <= __CPROVER_loop_entry(bestCost_) && sol_cost <= INFC && bestCost_ <= sol_cost || bestCost_ <= __CPROVER_loop_entry(bestCost_) && start <= NS_ && sol_cost == sol_cost && bestCost_ == bestCost_ && sol_cost <= INFC)
+__CPROVER_loop_invariant(SOL == 0 ? sol_cost == INFC : (SOL > 0 && SOL <= MAXV * MAXV && COSTP(SOL) == sol_cost && sol_cost >= THRESH && sol_cost < INFC))
+__CPROVER_loop_invariant((GS < start && ELIG) ==> (bestCost_ <= PC[GS][GG] && (PC[GS][GG] < INFC ==> sol_cost <= PC[GS][GG])))
+__CPROVER_decreases(NS_ - start)
+""", 2: """
+__CPROVER_assigns(goal, sol_cost, SOL, bestCost_)
+__CPROVER_loop_invariant(goal <= NG_ && start < NS_ && sol_cost == sol_cost && bestCost_ == bestCost_ && bestCost_ <= __CPROVER_loop_entry(bestCost_) && sol_cost <= INFC)
+__CPROVER_loop_invariant(SOL == 0 ? sol_cost == INFC : (SOL > 0 && SOL <= MAXV * MAXV && COSTP(SOL) == sol_cost && sol_cost >= THRESH && sol_cost < INFC))
+__CPROVER_loop_invariant(((GS < start || (GS == start && GG < goal)) && ELIG) ==> (bestCost_ <= PC[GS][GG] && (PC[GS][GG] < INFC ==> sol_cost <= PC[GS][GG])))
+__CPROVER_decreases(NG_ - goal)
+"""})],
+                  canaries=[dict(name="best_per_start_only", where="body:prm", rx=r"double sol_cost = infiniteCost\(\);(\s*for \(unsigned start = 0; start < NS_; \+\+start\)[^{]*\{)", repl=r"double sol_cost; \1 sol_cost = infiniteCost();")]))
+
+
+RRTS = "src/ompl/geometric/planners/rrt/src/RRTstar.cpp"
+RW_RULES = [
+    (r"bool checkForSolution = false;", "{ bool checkForSolution = false;", 0), (r"$", " return checkForSolution; }", 0),
+    (r"std::size_t", "size_t", 0), (r"nbh\.size\(\)", "NB", 0),
+    (r"nbh\[i\] != motion->parent", "(int)i != PARENT[NEWM]", 0),
+    (r"base::Cost (\w+);", r"double \1;", 0), (r"base::Cost (\w+) = ", r"double \1 = ", 0),
+    (r"opt_->motionCost\(motion->state, nbh\[i\]->state\)", "motionCostIdx(NEWM, i)", 0), (r"opt_->motionCost\(nbh\[i\]->state, motion->state\)", "motionCostIdx(i, NEWM)", 0),
+    (r"opt_->combineCosts\(", "combine(", 0), (r"opt_->isCostBetterThan\(", "better(", 0),
+    (r"si_->distance\(nbh\[i\]->state, motion->state\)", "distanceIdx(i, NEWM)", 0),
+    (r"si_->checkMotion\(motion->state, nbh\[i\]->state\)", "checkMotionIdx(NEWM, i)", 0), (r"si_->checkMotion\(nbh\[i\]->state, motion->state\)", "checkMotionIdx(i, NEWM)", 0),
+    (r"removeFromParent\(nbh\[i\]\);", "removeFromParent(i);", 0), (r"nbh\[i\]->parent->children\.push_back\(nbh\[i\]\);", "pushChild((size_t)PARENT[i], i);", 0),
+    (r"updateChildCosts\(nbh\[i\]\);", "updateChildCosts(i);", 0),
+    (r"nbh\[i\]->parent = motion;", "PARENT[i] = NEWM;", 0), (r"nbh\[i\]->incCost\b", "INC[i]", 0), (r"nbh\[i\]->cost\b", "COSTM[i]", 0), (r"motion->cost\b", "COSTM[NEWM]", 0),
+]
+UNITS.append(dict(name="c04_rrtstar_rewire", template="C04/rrtstar_rewire.c", entry="h_rewire", enforce=["rrtstar_rewire"], flags=FLAGS, level="proof", bound="<= 16 neighbours",
+                  replace=["motionCostIdx", "combine", "better", "distanceIdx", "checkMotionIdx", "removeFromParent", "pushChild", "updateChildCosts"],
+                  functions=["ompl::geometric::RRTstar::solve (rewiring step)"], backend="cadical", timeout=900, expect_loops=1, confirm=dict(unwind=4, defines={"MAXNB": 2}),
+                  sources=[dict(name="rewire", file=RRTS, begin=r"bool checkForSolution = false;\s*for \(std::size_t i = 0; i < nbh\.size\(\); \+\+i\)\s*\{\s*if \(nbh\[i\] != motion->parent\)",
+                                end=r"double distanceFromGoal;", wrap_braces=False, rules=RW_RULES, loops={1: """
+__CPROVER_assigns(i, checkForSolution, __CPROVER_object_whole(PARENT), __CPROVER_object_whole(INC), __CPROVER_object_whole(COSTM), checkedG, removedG, pushedG, updatedG)
+__CPROVER_loop_invariant(i <= NB && PARENT[NEWM] == __CPROVER_loop_entry(PARENT[NEWM]) && COSTM[NEWM] == __CPROVER_loop_entry(COSTM[NEWM]))
+__CPROVER_loop_invariant(G >= i ==> (PARENT[G] == PARENT0 && INC[G] == INC0 && COSTM[G] == COST0 && !checkedG && removedG == 0 && pushedG == 0 && updatedG == 0))
+__CPROVER_loop_invariant((G < i && PARENT[G] == NEWM && PARENT0 != NEWM) ==> (INC[G] == MC[NEWM][G] && COSTM[G] == COSTM[NEWM] + MC[NEWM][G] && COSTM[G] < COST0 && ((checkedG && MVG) || valid[G] == 1) && removedG == 1 && pushedG == 1 && updatedG == 1))
+__CPROVER_loop_invariant((G < i && !(PARENT[G] == NEWM && PARENT0 != NEWM)) ==> (removedG == 0 && pushedG == 0 && updatedG == 0 && ((int)G != PARENT[NEWM] ==> (PARENT[G] == PARENT0 && INC[G] == INC0 && COSTM[G] == COST0))))
+__CPROVER_decreases(NB - i)
+"""})],
+                  canaries=[dict(name="reverse_edge_cost", where="body:rewire", rx=r"nbhIncCost = motionCostIdx\(NEWM, i\);", repl="nbhIncCost = motionCostIdx(i, NEWM);"),
+                            dict(name="no_motion_check", where="body:rewire", rx=r"&&\s*checkMotionIdx\(NEWM, i\)", repl="")]))
+
 ASSUMPTIONS = [
     "solution fields are not NaN; the solutions compared carry the same objective (or all none)",
     "the objective's isCostBetterThan is the base '<' or MaximizeMinClearance's '>' (the two implementations in the tree); user-defined objectives must themselves be strict weak orders",
@@ -99,6 +192,19 @@ TRUSTED = ["extraction rewrite tables of units/C04.py (Cost wrapper erased: Cost
 NOT_COVERED = [
     "stored cost >= true recomputed cost and true cost >= admissible lower bound for each optimizing planner (needs per-planner tree invariants: planner solve() bodies are not under contract)",
     "monotonicity of the best stored cost across solve() calls inside each planner",
-    "setOptimized(...) call sites of the individual planners (listed in DESIGN.md; not verified)",
+    "setOptimized(...) call sites and incumbent updates of the optimizing planners other than AIT*, EIT* and PRM (RRT*, RRTX, BIT*, LazyPRM, STRRT*, ...): not verified",
     "MultiOptimizationObjective / StateCostIntegralObjective arithmetic",
 ]
+
+MISC_CPPS = ['src/ompl/base/src/ProblemDefinition.cpp', 'src/ompl/base/src/OptimizationObjective.cpp', 'src/ompl/base/objectives/src/MaximizeMinClearanceObjective.cpp', 'src/ompl/base/objectives/src/MinimaxObjective.cpp']
+NATIVE = [
+    dict(name="c04_native_search", driver="native/misc_native.cpp", link_ompl=True, unit_cpps=MISC_CPPS, args=lambda tier, seed: ["c04", seed, 3000 if tier == "quick" else 300000], timeout=900),
+]
+
+
+def replay(ur, scratch, seed):
+    """Search the real classes for a failing input (native/misc_native.cpp, mode c04)."""
+    from vf import native as N, cbmc as C
+    exe = N.build_driver("native/misc_native.cpp", scratch, link_ompl=True, unit_cpps=MISC_CPPS)
+    r = C.run_cmd([exe, "c04", str(seed), "75000"], 600, env=N.run_env())
+    return dict(found=(r["rc"] == 1), driver="native/misc_native.cpp", args=["c04", seed, 75000], link_ompl=True, unit_cpps=MISC_CPPS, output=r["out"][-2500:])
